@@ -96,7 +96,10 @@ func (g *Gen) Exhaustive(stream string) { g.stats.Exhaustive[stream] = true }
 // next case (A; A; B; A) — and a re-execution that answers differently is recorded as a case
 // of its own (stream "repeat"), which the judge then rejects: a helper that keeps hidden state
 // between calls (a memo of the last result handed out by reference, a reused buffer) shows up.
-var repeatIDs = map[string]bool{"C11": true, "C12": true, "C13": true, "C14": true, "C15": true}
+// The value is the sampling period: 1 = every case; the container properties build a fresh instance per
+// case, so there only package-level state could leak from one case to the next — every 5th case is re-run.
+var repeatIDs = map[string]int{"C11": 1, "C12": 1, "C13": 1, "C14": 1, "C15": 1,
+	"C03": 5, "C04": 5, "C05": 5, "C06": 5, "C07": 5, "C09": 5, "C10": 5, "C16": 5, "C19": 5}
 
 // aliasIDs: properties whose slice arguments are also passed as adjacent windows of one backing array
 // (util.go, aliasedMode); an answer that differs from the one on independent slices is recorded as a
@@ -119,7 +122,8 @@ func sameInts(a, b []int64) bool {
 func (g *Gen) Case(stream string, nontrivial bool, in []int64) {
 	obs := g.P.Exec(in)
 	g.Raw(stream, nontrivial, in, obs)
-	if !repeatIDs[g.P.ID] || len(in) > 4096 {
+	period := repeatIDs[g.P.ID]
+	if period == 0 || len(in) > 4096 || g.stats.Evaluations%period != 0 {
 		return
 	}
 	if aliasIDs[g.P.ID] {
